@@ -11,6 +11,10 @@ package server
 //@   ensures [default-rules] implies(isnil(result1) && !has(config.Server.Permissions.Users, name), result0.permissions == config.Server.Permissions.Default)
 //@   ensures [user-or-error] implies(isnil(result1), result0 != nil && result0.Name == name) && implies(!isnil(result1), result0 == nil)
 
+//@ func (*User).Serverless
+//@   assigns nothing
+//@   ensures [local-user-of-a-serverless-session] result == (u.remoteAddress == "local(serverless)")
+
 // ---- file permissions (C08) -------------------------------------------------------------------------
 // permVerdict(rules, k, path, T): over the first k rules, the last rule of type T
 // whose pattern matches path decides ('!' marks a deny pattern); no match means
